@@ -84,6 +84,7 @@ class OperatorTemplate(AbstractBaseTemplate):
                 pass  # pass equations string to constructor
             # else, update according to predefined rules, assuming dict structure
             elif isinstance(equations, dict):
+                equations = dict(equations)  # the caller's dictionary stays complete and can be used for further templates
                 new_eqs = equations.pop('add', [])
                 equations = [_update_equation(eq, **equations) for eq in self.equations] + new_eqs
             else:
